@@ -26,7 +26,14 @@ pub struct Parser {
     index: usize,
     roots_parsed: bool,
     where_parsed: bool,
+    depth: usize,
 }
+
+/// Brackets and function calls nest by recursion: deeper than this is refused, not crashed on.
+const MAX_NESTING_DEPTH: usize = 200;
+
+/// A chain of operators builds a tree as deep as it is long (and is evaluated by recursion).
+const MAX_CHAIN_LENGTH: usize = 1000;
 
 impl Parser {
     pub fn new() -> Parser {
@@ -35,6 +42,7 @@ impl Parser {
             index: 0,
             roots_parsed: false,
             where_parsed: false,
+            depth: 0,
         }
     }
 
@@ -467,13 +475,30 @@ impl Parser {
     }
 
     fn parse_expr(&mut self) -> Result<Option<Expr>, String> {
+        if self.depth >= MAX_NESTING_DEPTH {
+            return Err(String::from("Expression is nested too deeply"));
+        }
+
+        self.depth += 1;
+        let result = self.parse_or();
+        self.depth -= 1;
+
+        result
+    }
+
+    fn parse_or(&mut self) -> Result<Option<Expr>, String> {
         let left = self.parse_and()?;
 
         let mut right: Option<Expr> = None;
+        let mut terms = 0;
         loop {
             let lexem = self.next_lexem();
             match lexem {
                 Some(Lexem::Or) => {
+                    terms += 1;
+                    if terms > MAX_CHAIN_LENGTH {
+                        return Err(String::from("Expression is too long"));
+                    }
                     let expr = self.parse_and()?;
                     right = match right {
                         Some(right) => Some(Expr::logical_op(
@@ -502,10 +527,15 @@ impl Parser {
         let left = self.parse_cond()?;
 
         let mut right: Option<Expr> = None;
+        let mut terms = 0;
         loop {
             let lexem = self.next_lexem();
             match lexem {
                 Some(Lexem::And) => {
+                    terms += 1;
+                    if terms > MAX_CHAIN_LENGTH {
+                        return Err(String::from("Expression is too long"));
+                    }
                     let expr = self.parse_cond()?;
                     right = match right {
                         Some(right) => Some(Expr::logical_op(right, LogicalOp::And, expr.unwrap())),
@@ -603,6 +633,9 @@ impl Parser {
                     _ => return Err(String::from("Error parsing condition, operand expected")),
                 }
             }
+            _ if not => {
+                return Err(String::from("Error parsing condition, operator expected after NOT"));
+            }
             _ => {
                 self.drop_lexem();
                 Ok(left)
@@ -653,12 +686,17 @@ impl Parser {
         let mut left = self.parse_mul_div()?;
 
         let mut op = None;
+        let mut terms = 0;
         loop {
             let lexem = self.next_lexem();
             if let Some(Lexem::ArithmeticOperator(s)) = lexem {
                 let new_op = ArithmeticOp::from(s);
                 match new_op {
                     Some(ArithmeticOp::Add) | Some(ArithmeticOp::Subtract) => {
+                        terms += 1;
+                        if terms > MAX_CHAIN_LENGTH {
+                            return Err(String::from("Expression is too long"));
+                        }
                         let expr = self.parse_mul_div()?;
                         if op.is_none() {
                             op = new_op.clone();
@@ -689,6 +727,7 @@ impl Parser {
         let mut left = self.parse_paren()?;
 
         let mut op = None;
+        let mut terms = 0;
         loop {
             let lexem = self.next_lexem();
             if let Some(Lexem::ArithmeticOperator(s)) = lexem {
@@ -697,6 +736,10 @@ impl Parser {
                     Some(ArithmeticOp::Multiply)
                     | Some(ArithmeticOp::Divide)
                     | Some(ArithmeticOp::Modulo) => {
+                        terms += 1;
+                        if terms > MAX_CHAIN_LENGTH {
+                            return Err(String::from("Expression is too long"));
+                        }
                         let expr = self.parse_paren()?;
                         if op.is_none() {
                             op = new_op.clone();
@@ -809,27 +852,40 @@ impl Parser {
         let is_boolean_function = function.is_boolean_function();
         let mut function_expr = Expr::function(function);
 
-        let mut curly_mode = false;
-        if let Some(lexem) = self.next_lexem() {
-            if lexem != Lexem::Open && lexem != Lexem::CurlyOpen {
+        let curly_mode;
+        match self.next_lexem() {
+            Some(lexem) if lexem == Lexem::Open || lexem == Lexem::CurlyOpen => {
+                curly_mode = lexem == Lexem::CurlyOpen;
+            }
+            other => {
                 // functions without arguments don't require brackets
                 if is_boolean_function || function_expr.function.as_ref().is_some_and(|f| f.is_argless()) {
-                    self.drop_lexem();
+                    if other.is_some() {
+                        self.drop_lexem();
+                    }
                     return Ok(function_expr);
                 }
 
                 return Err("Error in function expression".to_string());
             }
-
-            if lexem == Lexem::CurlyOpen {
-                curly_mode = true;
-            }
         }
 
-        if let Ok(Some(function_arg)) = self.parse_expr() {
-            function_expr.left = Some(Box::from(function_arg));
-        } else {
-            return Ok(function_expr);
+        // no argument: the bracket is closed right away
+        match self.next_lexem() {
+            Some(lexem)
+                if (lexem == Lexem::Close && !curly_mode)
+                    || (lexem == Lexem::CurlyClose && curly_mode) =>
+            {
+                return Ok(function_expr);
+            }
+            _ => self.drop_lexem(),
+        }
+
+        match self.parse_expr()? {
+            Some(function_arg) => {
+                function_expr.left = Some(Box::from(function_arg));
+            }
+            None => return Err("Error in function expression".to_string()),
         }
 
         let mut args = vec![];
